@@ -123,6 +123,10 @@ type CollectionPage struct {
 	Next Item `jsonld:"next,omitempty"`
 	// In a paged Collection, identifies the previous page of items.
 	Prev Item `jsonld:"prev,omitempty"`
+	// reserved: OrderedCollectionPage differs from CollectionPage only by its trailing StartIndex word.
+	// Keeping the two types the same size means the OrderedCollectionPage view that ToOrderedCollectionPage
+	// hands out for a CollectionPage never reaches past the end of the value.
+	_ uint
 }
 
 // GetID returns the ID corresponding to the CollectionPage object
